@@ -427,7 +427,7 @@ impl Check for C13 {
     fn run_shard(&self, ctx: &Ctx, rec: &mut Rec) {
         let total = match ctx.tier {
             Tier::Quick => 5000,
-            Tier::Thorough => 30000,
+            Tier::Thorough => 120000,
         };
         prop_loop(ctx, rec, "gen", strategy(), ctx.share(total), judge);
         prop_loop(ctx, rec, "long", long_strategy(), ctx.share(total / 25), judge_long);
